@@ -66,13 +66,40 @@ func (ex *Exec) stmt(st *State, s ast.Stmt, label string) []flow {
 		return nil
 	}
 	ex.runAnchors(st, s, "before")
+	var prev *State
+	if ex.hasAfterAnchor(s) {
+		prev = st.clone()
+	}
 	fl := ex.stmt1(st, s, label)
+	savePrev := ex.prevState
+	ex.prevState = prev
 	for _, f := range fl {
 		if f.kind == flowNormal {
 			ex.runAnchors(f.st, s, "after")
 		}
 	}
+	ex.prevState = savePrev
 	return fl
+}
+
+// hasAfterAnchor: does an `after` hook name this statement?
+func (ex *Exec) hasAfterAnchor(s ast.Stmt) bool {
+	if ex.FSpec == nil || ex.hookDepth > 0 {
+		return false
+	}
+	txt := ""
+	for _, h := range ex.FSpec.Hooks {
+		if h.Kind != "after" {
+			continue
+		}
+		if txt == "" {
+			txt = normSpace(ex.nodeSrc(s))
+		}
+		if txt == normSpace(h.Target) {
+			return true
+		}
+	}
+	return false
 }
 
 // runAnchors executes after/before hooks whose text matches the statement.
@@ -1151,8 +1178,22 @@ func (ex *Exec) callMods(c *ast.CallExpr, ms *modSet) {
 		}
 	}
 	if tv, ok := ex.Info.Types[c.Fun]; ok && tv.IsType() {
-		ms.mem = true // conversions may allocate byte memory
-		ms.addMemSort("Mem$" + smtName(SByte))
+		// conversions between strings and byte slices allocate byte memory
+		involves := func(t types.Type) bool {
+			if t == nil {
+				return false
+			}
+			_, isSlice := t.Underlying().(*types.Slice)
+			return isSlice || isString(t)
+		}
+		var at types.Type
+		if len(c.Args) == 1 {
+			at = ex.typeOf(c.Args[0])
+		}
+		if involves(tv.Type) && involves(at) && !types.Identical(tv.Type.Underlying(), at.Underlying()) {
+			ms.mem = true
+			ms.addMemSort("Mem$" + smtName(SByte))
+		}
 		return
 	}
 	fn := ex.calleeOf(c)
@@ -1357,6 +1398,7 @@ func (ex *Exec) loopInvs(st *State, ls *LoopSpec, path, phase string, assume boo
 		label := labelOr(c.Label, fmt.Sprint(i+1))
 		where := fmt.Sprintf("%s:%d loop %s invariant %s", c.File, c.Line, path, label)
 		g := ex.evalSpecBool(st, c.Expr, ex.U, where)
+		ex.tagHyp(g, label)
 		if assume {
 			st.assume(g)
 		} else {
@@ -1371,6 +1413,42 @@ func (ex *Exec) loopInvs(st *State, ls *LoopSpec, path, phase string, assume boo
 		} else {
 			delete(st.bound, counter)
 		}
+	}
+	for n, o := range saved {
+		st.names[n] = o
+	}
+}
+
+// loopHints: facts proved from the invariants at the loop head (each is an
+// obligation of its own) and then available to the body - proof staging.
+func (ex *Exec) loopHints(st *State, ls *LoopSpec, path string, pos token.Pos, shadow []string, counter string, k *Term) {
+	if ls == nil || (len(ls.Hints) == 0 && len(ls.Applies) == 0) {
+		return
+	}
+	saved := map[string]types.Object{}
+	for _, n := range shadow {
+		if o, ok := st.names[n]; ok {
+			saved[n] = o
+			delete(st.names, n)
+		}
+	}
+	if counter != "" && k != nil {
+		st.bound[counter] = &Val{T: tInt, Term: k}
+	}
+	savePL := ex.specPreferLocals
+	ex.specPreferLocals = true
+	for _, c := range ls.Applies {
+		st.assume(ex.lemmaInstance(st, c.Expr, fmt.Sprintf("%s:%d loop %s apply", c.File, c.Line, path)))
+	}
+	for i, c := range ls.Hints {
+		label := labelOr(c.Label, fmt.Sprint(i+1))
+		g := ex.evalSpecBool(st, c.Expr, ex.U, fmt.Sprintf("%s:%d loop %s hint %s", c.File, c.Line, path, label))
+		ex.oblige(st, "hint"+path, label, pos, g, c.Props)
+		st.assume(g)
+	}
+	ex.specPreferLocals = savePL
+	if counter != "" && k != nil {
+		delete(st.bound, counter)
 	}
 	for n, o := range saved {
 		st.names[n] = o
@@ -1431,6 +1509,7 @@ func (ex *Exec) forStmt(st *State, s *ast.ForStmt, label string) []flow {
 	ex.preTouch(st, s.Body, s.Post, s.Cond)
 	ex.havocLoop(st, ms)
 	ex.loopInvs(st, ls, path, "", true, s.Pos(), nil, "", nil)
+	ex.loopHints(st, ls, path, s.Pos(), nil, "", nil)
 	ex.reachProbe(st, "loop"+path, s.Pos())
 	var out []flow
 	var body, exit *State
@@ -1593,6 +1672,7 @@ func (ex *Exec) rangeStmt(st *State, s *ast.RangeStmt, label string) []flow {
 		st.assume(or(eq(k, intLit(0)), lt(mul(sub(k, intLit(1)), chunkN), ex.sLen(x.Term))))
 	}
 	ex.loopInvs(st, ls, path, "", true, s.Pos(), shadow, counter, k)
+	ex.loopHints(st, ls, path, s.Pos(), shadow, counter, k)
 	ex.reachProbe(st, "loop"+path, s.Pos())
 	var cond *Term
 	switch kind {
@@ -1607,6 +1687,10 @@ func (ex *Exec) rangeStmt(st *State, s *ast.RangeStmt, label string) []flow {
 	var out []flow
 	if exit != nil {
 		exit.path = append(exit.path, "exit"+path)
+		// the final counter value stays nameable after the loop
+		if _, clash := exit.bound[counter]; !clash && keyName != counter {
+			exit.bound[counter] = &Val{T: tInt, Term: k}
+		}
 		out = append(out, flow{kind: flowNormal, st: exit})
 	}
 	if body == nil {
